@@ -600,6 +600,44 @@ func init() {
 			if creates != wantCreates {
 				viol("seen-record-count", "pub.(*sideEffectActor).InboxForwarding", "activity Create count"+hist, fmt.Sprintf("the activity was created %d times over the history, want %d", creates, wantCreates))
 			}
+			if wantForward && len(sc.FailAt) == 0 && cs.Info["fault_variant"] == nil {
+				// the same history with the recording of the activity
+				// failing once: nothing may be forwarded by a request that
+				// could not record the activity (else the next delivery,
+				// finding no record, forwards it again)
+				for _, e := range res.Log {
+					if e.Kind == "db.Create" && len(e.Args) > 0 && e.Args[0] == actID && e.FallIdx > 0 {
+						fc := cloneScenario(sc)
+						fc.FailAt = []int{e.FallIdx}
+						fres := sim.Run(fc)
+						r.Eval(1)
+						r.Count("record_fault_variants", 1)
+						failedReq, nFw := "", 0
+						for _, fe := range fres.Log {
+							if fe.Injected && fe.Kind == "db.Create" {
+								failedReq = fe.Req
+							}
+							if fe.Kind == "tp.BatchDeliver" {
+								if pm, _ := parseJSON(fe.Payload); act["type"] == "Follow" {
+									if m, _ := pm.(map[string]interface{}); m != nil && (m["type"] == "Accept" || m["type"] == "Reject") {
+										continue
+									}
+								}
+								nFw++
+								if failedReq != "" && fe.Req == failedReq {
+									r.Violate(verdict.Sig{Rule: "C17.forwarded-without-seen-record", Site: fe.Site, Feature: "the Create of the activity failed"}, map[string]interface{}{"scenario": fc, "info": cs.Info},
+										map[string]interface{}{"message": "the request whose db.Create of the activity failed forwarded it all the same", "responses": fres.Responses, "log": fres.Log})
+								}
+							}
+						}
+						if nFw > 1 {
+							r.Violate(verdict.Sig{Rule: "C17.forward-count", Site: "pub.(*sideEffectActor).InboxForwarding", Feature: "want at most 1 with the first recording failing"}, map[string]interface{}{"scenario": fc, "info": cs.Info},
+								map[string]interface{}{"message": fmt.Sprintf("%d forwards over the history", nFw), "responses": fres.Responses, "log": fres.Log})
+						}
+						break
+					}
+				}
+			}
 			if wantForward {
 				r.NonTrivial(jstr(sc.Requests) + jstr(cs.Info))
 				if len(forwards) == 0 && len(wantRecips) == 0 {
